@@ -24,6 +24,9 @@ HARNESSES = [
  dict(name='matmul_mixed', src='harnesses/C16.c', func='h_matmul_mixed', kernels=['C16_matmul'], unwind=6, backend='kissat',
       bounds='view::matmul of operands with DIFFERENT element types (uint8 @ uint16 and, WIDE=1, uint16 @ uint8; uint16 values 256 + byte): result element type and exact element; ' + EL,
       quick=[_sh((1, 2), (2, 1), WIDE=0), _sh((1, 2), (2, 1), WIDE=1)], thorough=[_sh((2, 2), (2, 2), WIDE=0), _sh((2, 2), (2, 2), WIDE=1), _sh((1, 3), (3, 2), WIDE=0)]),
+ dict(name='matmulv2_small', src='harnesses/C16.c', func='h_matmul_el', kernels=['C16_matmulv2'], unwind=6, timeout=900, mem_gb=10,
+      bounds='view::matmulv2 with operand data restricted to 2-bit values (DBITS=2: positions, index ranges and the transposition of the right operand stay fully visible; the multiplier circuits shrink - with full 8-bit data these shapes give no verdict); ' + EL,
+      quick=[_sh((1, 2), (2, 2), V2=1, DBITS=2), _sh((2,), (2, 2), V2=1, DBITS=2)], thorough=[_sh((2, 2), (2, 2), V2=1, DBITS=2, _timeout=1800), _sh((2, 2), (2, 1), V2=1, DBITS=2), _sh((1, 2), (2, 2), V2=1, DBITS=3, _timeout=1800)]),
  dict(name='matmulv2_el', src='harnesses/C16.c', func='h_matmul_el', kernels=['C16_matmulv2'], unwind=6, optional=True, timeout=900, mem_gb=10,
       bounds='view::matmulv2 (tile/reshape/transpose/multiply/sum pipeline), hybrid operands, the only implementation that compiles for rank-1 operands; ' + EL,
       quick=[], thorough=[_sh((2,), (2, 1), V2=1), _sh((1, 2), (2,), V2=1), _sh((1, 2), (2, 1), V2=1), _sh((2,), (2, 2), V2=1)]),   # kissat: out of memory (11.5 GB); cadical: no verdict in 600 s
